@@ -316,7 +316,13 @@ def affine_between(s1: SVGShape, s2: SVGShape, tolerance: float) -> Optional[Aff
     s2 = dataclasses.replace(s2, id="")
 
     if s1.almost_equals(s2, tolerance):
-        return Affine2D.identity()
+        # an arc's x-axis-rotation is an angle, not a length: as in _try_affine, arcs
+        # are only taken for equal when their cubic forms are
+        p1, p2 = s1.as_path(), s2.as_path()
+        if "a" not in p1.d.lower() or p1.arcs_to_cubics().almost_equals(
+            p2.arcs_to_cubics(), tolerance
+        ):
+            return Affine2D.identity()
 
     s1 = _affine_friendly(s1)
     s2 = _affine_friendly(s2)
